@@ -47,7 +47,7 @@ def _edge_fact_dicts(body, sym, facts, s, vals, unwind=False, _depth=0):
     """facts that hold when switch block s is left through an edge carrying one of `vals` (None = otherwise)"""
     out = []
     t = body.term(s)
-    e = sym.op(t["on"])
+    e = sym.switch_on(s) if hasattr(sym, "switch_on") else sym.op(t["on"])
     ty = t.get("on_ty", "")
     explicit = [v for v, _ in t["targets"]]
     if ty == "bool":
@@ -248,6 +248,37 @@ def facts_at(body, sym, facts, bb, unwind=False, _depth=0):
     return out
 
 
+def path_facts(body, sym, facts, bb, depth=3):
+    """Fact sets, one per way of entering block bb: where several edges meet (an `A | B =>` arm, a shared exit), no single
+    edge dominates, but each incoming edge carries its own facts.  A condition holds at bb if it holds in every set."""
+    live = body.live_blocks()
+    preds = [p for p in body.preds().get(bb, []) if p in live]
+    # the join may lie above a straight-line run into bb (drops, calls, gotos): whatever holds there, holds at bb
+    hops = 0
+    extra = []
+    while len(preds) == 1 and hops < 40 and body.term(preds[0])["k"] != "switch":
+        hops += 1
+        bb0 = preds[0]
+        preds = [p for p in body.preds().get(bb0, []) if p in live]
+        if len(preds) > 1:
+            bb = bb0
+    if len(preds) <= 1 or depth <= 0:
+        return [facts_at(body, sym, facts, bb)]
+    out = []
+    for p in preds:
+        t = body.term(p)
+        if t["k"] == "switch":
+            vals = {v for v, tb in t["targets"] if tb == bb}
+            if t["otherwise"] == bb:
+                vals.add(None)
+            edge = _edge_fact_dicts(body, sym, facts, p, vals)
+            for fs in path_facts(body, sym, facts, p, depth - 1):
+                out.append(list(fs) + edge)
+        else:
+            out.extend(path_facts(body, sym, facts, p, depth - 1))
+    return out
+
+
 def fact_alternatives(body, sym, facts, bb, max_alts=8):
     base = _facts_at_raw(body, sym, facts, bb)
     return _alternatives(body, sym, facts, bb, base, max_alts)
@@ -350,6 +381,21 @@ def place_ty_guess(body, pl):
     if all(e == "deref" for e in pl["p"]):
         return body.local_ty(pl["l"])
     return None
+
+
+def infeasible(fs):
+    """facts (dominating edges) that contradict each other: the block lies only on paths no execution takes (left-overs of
+    jump threading / inlining)"""
+    seen = {}
+    for f in fs:
+        v = f["val"]
+        if not isinstance(v, (str, bool, int)):
+            continue
+        k = render(f["expr"])
+        if k in seen and seen[k] != v:
+            return True
+        seen.setdefault(k, v)
+    return False
 
 
 def has_fact(fs, pred):
